@@ -158,9 +158,13 @@ def run_threads(case) -> dict:
     sd = dtyp.target_sd(offline.SID_A)
     ports = rng.sample(range(20000, 60000), n)
     replies = []
-    for p in ports:
+    for k_, p in enumerate(ports):
         towers, _e = wellformed_towers(rng)
         towers = [rpce.std_tower(rpce.ISD_KEY_IF, rpce.NDR20, p)] + [tw for tw in towers if rpce.tower_tcp_port(tw) is None]
+        if policy.get("mode") in ("points", "marks") and k_ == n - 1:
+            # one lookup meets a mapper with a very long list of endpoints (150 floors nobody has seen before) while the other lookups,
+            # pre-empted once or twice at a PRNG-chosen line, decode the usual ones
+            towers += [[(0x22 + (seed + 7 * j + i) % 0xDD, bytes([j, i, seed & 0xFF]), bytes([i, j])) for i in range(6)] for j in range(25)]
         replies.append(rpce.ndr64_ept_map_response(towers, 0))
     dc = refdc.RefDC(world, [], host=DC, epm={"raw_replies": replies})
     world.routes.pop((DC, dc.gkdi_port), None)
@@ -226,7 +230,7 @@ def run(case) -> dict:
         if how == 1:
             world.default_delivery = {"mode": "rand", "seed": seed & 0xFFFF, "bias": ("small", "header", "geo")[seed % 3]}
         elif how == 2:
-            world.default_delivery = {"mode": "cuts", "cuts": {"1": [16 + seed % max(1, len(reply))]}, "gaps": [[1, 1, (0.01, 0.5, 3.0)[seed % 3]]]}
+            world.default_delivery = {"mode": "cuts", "cuts": {"1": [16 + seed % max(1, len(reply))]}, "gaps": [[1, 1, (0.01, 0.5, 3.0, 6.0, 40.0)[seed % 5]]]}
         elif how == 3:
             world.default_delivery = {"rst_at": [1, 24 + len(reply)]}
         elif how == 4:
@@ -295,7 +299,7 @@ class C18(common.Check):
     rule = ("case = ept_map reply served to the real first hop of _sync_get_key/_async_get_key. Well-formed (reference-encoded): 0..6 towers, 2..7 "
             "floors of known and unknown protocols with payloads 0..11 bytes (every tower-length residue mod 8), TCP floor first / last / "
             "anywhere / absent, status 0 and error codes: the port dialled next (observed at the network seam) must be the TCP port of the first "
-            "tower with a TCP floor; error status or no TCP floor must raise without dialling; the reply's lookup handle is NULL or live (the mapper then answers every further request the same way); the Response PDU's advisory alloc_hint is exact, zero or smaller than the stub; the reply arrives whole, in PRNG segments, after a pause, in three segments with a wall-clock step of +61 s .. +400 d / -1 h in between, or complete and followed at once by a connection reset; the hint is exact, "
+            "tower with a TCP floor; error status or no TCP floor must raise without dialling; the reply's lookup handle is NULL or live (the mapper then answers every further request the same way); the Response PDU's advisory alloc_hint is exact, zero or smaller than the stub; the reply arrives whole, in PRNG segments, after a pause of 10 ms .. 40 s, in three segments with a wall-clock step of +61 s .. +400 d / -1 h in between, or complete and followed at once by a connection reset; the hint is exact, "
             "zero or smaller than the stub; sequences of lookups in one process whose answers change; 2..3 caller threads looking the endpoint "
             "up at the same time (sync API, deterministic thread scheduler, segmented replies) while the mapper announces a different port "
             "to each: every announced port must be dialled exactly once. Hostile: many towers with tiny declared lengths whose floor counts "
@@ -322,8 +326,10 @@ class C18(common.Check):
             out.append(["seq", "sync" if i % 2 else "async", rng.getrandbits(30), [rng.choice((0, 0, 0x16C9A0D6, 1)) for _ in range(rng.randint(2, 4))]])
         from checks import threadpure
 
-        for k in range(300 if tier == "quick" else 15000):
-            out.append(["threads", rng.getrandbits(30), 2 + k % 2, threadpure.policy_for(k)])
+        for k in range(700 if tier == "quick" else 20000):
+            # (single pre-emptions at PRNG-chosen lines as well: a check-then-use on shared state has no write to mark the window)
+            pol = threadpure.policy_for(k) if k % 3 == 0 else ({"mode": "points", "n": 1 + k % 2, "horizon": (150, 400, 900, 2500)[k % 4]} if k % 3 == 1 else {"mode": "marks", "q": (0.1, 0.3, 0.7, 1.0)[(k // 3) % 4], "p": (0.0, 0.02)[(k // 12) % 2]})
+            out.append(["threads", rng.getrandbits(30), 2 + k % 2, pol])
         for s in range(6 if tier == "quick" else 60):
             sd_ = rng.getrandbits(30)
             for k in range(0, 600):
